@@ -226,7 +226,15 @@ def check(ctx):
         'back exactly what the API exposes) gives the same normal form as '
         'n + m at once (PDHG for theta = 1, 0 and 1/2).  R3: the callback receives exactly one iterate per '
         'iteration (per inner iteration when callback_loop == "inner"), '
-        'and it is the iterate after the last update.',
+        'and it is the iterate after the last update.  R5: R1 treats a '
+        'proximal as one deterministic function of its argument although '
+        'the optimised solvers call it as prox(v, out=v) and the reference '
+        'implementations out of place; that premise is discharged for the '
+        'library: every aliased proximal call site of the optimised '
+        'implementations is listed, and every proximal of the library '
+        '(C07 tier instances, at their designated points) is evaluated '
+        'with out aliased to the input and must leave the out-of-place '
+        'value in it.',
         ['CPython ast', 'vector-space axioms; linear operators distribute',
          'proximal/gradient/operator symbols are deterministic functions '
          'of their argument'],
@@ -237,7 +245,52 @@ def check(ctx):
     _pairs(rep, model)
     _resume(rep, model)
     _callbacks(rep, model)
+    _aliased_proximals(ctx, rep, model)
     return rep
+
+
+OPTIMISED = (('odl/solvers/nonsmooth/admm.py', 'admm_linearized'),
+             ('odl/solvers/nonsmooth/alternating_dual_updates.py',
+              'adupdates'),
+             ('odl/solvers/nonsmooth/difference_convex.py', 'doubleprox_dc'))
+
+
+def _aliased_proximals(ctx, rep, model):
+    """R5: the optimised implementations call proximals in place on their
+    own input; the library's proximals must then return what the out-of-place
+    call returns."""
+    n = 0
+    for rel, fname in OPTIMISED:
+        fn = None
+        if fn is None:
+            for node in ctx.tree(rel).body:
+                if isinstance(node, ast.FunctionDef) and node.name == fname:
+                    fn = node
+        if fn is None:
+            raise AnalysisError('anchor %s:%s not found' % (rel, fname))
+        for c in ast.walk(fn):
+            if not isinstance(c, ast.Call) or not c.args:
+                continue
+            outs = [k.value for k in c.keywords if k.arg == 'out']
+            if len(outs) != 1 or not isinstance(outs[0], ast.Name):
+                continue
+            o, a = outs[0].id, c.args[0]
+            # prox(v, out=v) and prox(v.lincomb(...), out=v): lincomb
+            # returns the object it was called on
+            if (isinstance(a, ast.Name) and a.id == o) or (
+                    isinstance(a, ast.Call)
+                    and isinstance(a.func, ast.Attribute)
+                    and a.func.attr == 'lincomb'
+                    and isinstance(a.func.value, ast.Name)
+                    and a.func.value.id == o):
+                n += 1
+                rep.holds('R5', '%s:%s' % (fname, ast.unparse(c)[:60]),
+                          'aliased call site; premise discharged by the '
+                          'evaluated instances below')
+    rep.floor('R5', 'aliased proximal call sites of the optimised solvers',
+              n, 3)
+    from . import c10b
+    c10b.run(rep, model, rule='R5', kinds=('proximal',), floor=60)
 
 
 # --------------------------------------------------------------------------
